@@ -425,6 +425,8 @@ def error_exit_blocks(fn):
             if st["k"] == "assign" and st["dst"]["l"] == 0 and not st["dst"]["p"] and st["rv"]["r"] == "agg" \
                     and st["rv"].get("variant") == "Err" and st["rv"].get("adt", "").endswith("result::Result"):
                 bad.add(bi)
+    # error exits of a helper that was inlined at a `?` / tail-return call site (facts.absorb_new_functions) are error exits of this function
+    bad |= set(fn.get("_errx_inlined", ()))
     fn["_errx"] = bad
     return bad
 
@@ -600,6 +602,9 @@ class Exprs:
         if r == "discr":
             return Ex("discr", None, [self.place(rv["pl"], depth, stack)])
         if r == "agg":
+            if rv.get("closure"):
+                # what a closure captures is how it is written (whole `self` or one field of it), not where an argument comes from
+                return Ex("item", "closure " + short(rv["closure"], 3))
             name = rv.get("variant") or ("tuple" if rv.get("tuple") else "agg")
             if rv.get("adt"):
                 name = short(rv["adt"], 1) + "::" + rv.get("variant", "")
